@@ -308,6 +308,9 @@ func c05XDecode(c *c05Case) {
 	if c.label != "" && len(code) > 1 && code[len(code)-1] == 0xc3 {
 		code = code[:len(code)-1]
 	}
+	if len(code) == 0 || code[0] == 0xc4 || code[0] == 0xc5 || code[0] == 0x62 {
+		return // VEX/EVEX: x86asm knows only a handful of them and misreads the rest
+	}
 	inst, err := x86asm.Decode(code, 64)
 	if err != nil || inst.Len != len(code) || inst.Op == 0 {
 		return
